@@ -91,12 +91,12 @@ Definition clean_b (fs : fsys) (root : list ident) : bool :=
           | None => false
           end
       | None => false
-      end)) (m_imports (snd fm))) fs.
+      end)) (m_imports (snd fm))) (files fs).
 
 (* a top-level name is defined by at most one file *)
 Fixpoint count_id (n : ident) (l : list ident) : nat :=
   match l with [] => O | x :: r => (if n =? x then 1 else 0)%nat + count_id n r end.
-Definition all_def_names (fs : fsys) : list ident := flat_map (fun fm => map d_name (m_defs (snd fm))) fs.
+Definition all_def_names (fs : fsys) : list ident := flat_map (fun fm => map d_name (m_defs (snd fm))) (files fs).
 Definition unique_defs (fs : fsys) : bool :=
   forallb (fun n => Nat.eqb (count_id n (all_def_names fs)) 1) (all_def_names fs).
 
@@ -124,66 +124,66 @@ Definition E9 : fpath := [9].
 
 
 (* two directories (20, 21), each with its own file 12, each imported as `needs n12` from its own directory *)
-Definition w_collision : fsys :=
+Definition w_collision : fsys := mkfs
   [ ([9], M [imp [20;10] (FAlias 70); imp [21;11] (FAlias 71)] []);
     ([20;10], M [imp [12] FModule] [D 30 true]);
     ([21;11], M [imp [12] FModule] [D 34 true]);
     ([20;12], M [] [D 40 true; D 41 true]);
-    ([21;12], M [] [D 40 true; D 42 true]) ].
+    ([21;12], M [] [D 40 true; D 42 true]) ] [] [].
 
 (* a/x imported as a.x by the entry and as x by a/y *)
-Definition w_twokeys : fsys :=
+Definition w_twokeys : fsys := mkfs
   [ ([9], M [imp [20;10] (FAlias 70); imp [20;11] (FAlias 71)] []);
     ([20;10], M [] [D 30 true]);
-    ([20;11], M [imp [10] FModule] [D 34 true]) ].
+    ([20;11], M [imp [10] FModule] [D 34 true]) ] [] [].
 
 (* one directory; 10 has pub 40, 11 a PRIVATE 40; 12 imports 10 (alias 73) after 11 ran *)
-Definition w_flatns : fsys :=
+Definition w_flatns : fsys := mkfs
   [ ([9], M [imp [10] (FAlias 70); imp [11] (FAlias 71); imp [12] (FAlias 72)] []);
     ([10], M [] [D 40 true]);
     ([11], M [] [D 40 false; D 45 true]);
-    ([12], M [imp [10] (FAlias 73)] [D 46 true]) ].
+    ([12], M [imp [10] (FAlias 73)] [D 46 true]) ] [] [].
 
 (* 10 `needs n11.n44`, 11 `needs n10.n40` *)
-Definition w_pscycle : fsys :=
+Definition w_pscycle : fsys := mkfs
   [ ([9], M [imp [10] FModule] []);
     ([10], M [imp [11;44] FModule] [D 40 true]);
-    ([11], M [imp [10;40] FModule] [D 44 true]) ].
+    ([11], M [imp [10;40] FModule] [D 44 true]) ] [] [].
 
 (* `needs n10` then `needs n10.n42`, 42 private *)
-Definition w_leak : fsys :=
+Definition w_leak : fsys := mkfs
   [ ([9], M [imp [10] FModule; imp [10;42] FModule] []);
-    ([10], M [] [D 40 true; D 42 false]) ].
+    ([10], M [] [D 40 true; D 42 false]) ] [] [].
 
 (* `needs n40, n42 from n10` in the entry and in module 11 *)
-Definition w_second : fsys :=
+Definition w_second : fsys := mkfs
   [ ([9], M [imp [11] FModule; imp [10] (FSymbols [40;42])] []);
     ([11], M [imp [10] (FSymbols [40;42])] [D 46 true]);
-    ([10], M [] [D 40 true; D 42 true]) ].
+    ([10], M [] [D 40 true; D 42 true]) ] [] [].
 
 (* `needs n40 from n10`: n10.n40 and n99.n40 work *)
-Definition w_qual : fsys :=
+Definition w_qual : fsys := mkfs
   [ ([9], M [imp [10] (FSymbols [40])] []);
-    ([10], M [] [D 40 true]) ].
+    ([10], M [] [D 40 true]) ] [] [].
 
 (* 13 imports 11 as 70, 12 imports 10 as 70 *)
-Definition w_shared_q : fsys :=
+Definition w_shared_q : fsys := mkfs
   [ ([9], M [imp [13] FModule; imp [12] FModule] []);
     ([13], M [imp [11] (FAlias 70)] [D 50 true]);
     ([12], M [imp [10] (FAlias 70)] [D 46 true]);
     ([10], M [] [D 40 true]);
-    ([11], M [] [D 44 true]) ].
+    ([11], M [] [D 44 true]) ] [] [].
 
 (* non-vacuity: a flat diamond with all import forms initialises in post-order; a 6-cycle behind a
    tail is reported, with the minimal fuel bound *)
-Definition w_diamond : fsys :=
+Definition w_diamond : fsys := mkfs
   [ ([9], M [imp [10] FModule; imp [11] (FAlias 71); imp [12] (FSymbols [38]); imp [1;0] (FAlias 77)] [D 60 true]);
     ([10], M [imp [19] (FAlias 75)] [D 30 true; D 31 false]);
     ([11], M [imp [19] (FSymbols [66])] [D 34 true]);
     ([12], M [imp [19] FWildcard; imp [10] FModule] [D 38 true]);
-    ([19], M [] [D 66 true; D 67 false]) ].
+    ([19], M [] [D 66 true; D 67 false]) ] [] [].
 
-Definition w_cycle6 : fsys :=
+Definition w_cycle6 : fsys := mkfs
   [ ([9], M [imp [10] FModule] []);
     ([10], M [imp [11] (FAlias 70)] [D 30 true]);
     ([11], M [imp [12] FModule] [D 34 true]);
@@ -192,4 +192,4 @@ Definition w_cycle6 : fsys :=
     ([14], M [imp [15] FModule] [D 46 true]);
     ([15], M [imp [16] FModule] [D 50 true]);
     ([16], M [imp [19] FModule; imp [11] (FAlias 71)] [D 54 true]);
-    ([19], M [] [D 66 true]) ].
+    ([19], M [] [D 66 true]) ] [] [].
